@@ -96,6 +96,16 @@ pub fn exec(w: &[&str], obs: &mut Obs) -> Option<String> {
             let full: Vec<Option<Vec<(String, String)>>> = (0..4).map(|p| bin_any(&d, p).ok().and_then(|v| top_entries(&v))).collect();
             let full_tape = BinaryTape::from_slice(&d).ok().map(|t| show::bin_tape(t.tokens()));
             let mut oks = 0;
+            {
+                let mut reused = BinaryTape::default();
+                let _ = BinaryTapeParser.parse_slice_into_tape(&d, &mut reused);
+                for k in (0..d.len()).rev() {
+                    let pre = &d[..k];
+                    let fresh = BinaryTape::from_slice(pre).ok().map(|t| show::bin_tape(t.tokens()));
+                    let again = BinaryTapeParser.parse_slice_into_tape(pre, &mut reused).ok().map(|_| show::bin_tape(reused.tokens()));
+                    if fresh != again { obs.violation("cut-reused-tape-differs", &case, &format!("binary prefix {}: fresh {:?}, reused {:?}", k, fresh, again)); break; }
+                }
+            }
             for k in 0..d.len() {
                 let pre = &d[..k];
                 // a single stray byte after a complete field is ignored by the tape parser and the on-demand
@@ -160,6 +170,19 @@ pub fn exec(w: &[&str], obs: &mut Obs) -> Option<String> {
             };
             let full_de = [de_keys(&d, false), de_keys(&d, true)];
             let mut oks = 0;
+            // one tape object reused for every prefix (what a caller that recycles its tape sees): the
+            // result must be the fresh parse's, nothing of the previous, longer parse may survive
+            let mut reused = TextTape::new();
+            let _ = TextTape::parser().parse_slice_into_tape(&d, &mut reused);
+            for k in (0..d.len()).rev() {
+                let pre = &d[..k];
+                let fresh = TextTape::from_slice(pre).ok().map(|t| (show::text_tape(t.tokens()), t.utf8_bom()));
+                let again = TextTape::parser().parse_slice_into_tape(pre, &mut reused).ok().map(|_| (show::text_tape(reused.tokens()), reused.utf8_bom()));
+                if fresh != again {
+                    obs.violation("cut-reused-tape-differs", &case, &format!("prefix {}: fresh parse {:?}, parse into a reused tape {:?}", k, fresh, again));
+                    break;
+                }
+            }
             for k in 0..d.len() {
                 let pre = &d[..k];
                 if let Ok(pf) = text_fields(pre) {
